@@ -16,6 +16,7 @@ disagreement).  Generator specifications:
         the cumulative weights); everything else is PCG64(seed).
 """
 import contextlib
+import json
 import math
 import os
 from collections import Counter
@@ -121,11 +122,56 @@ def _farr(vals):
     return numpy.array([float(Fraction(v)) for v in vals], dtype=float)
 
 
+def _layout(arr, layout, fill):
+    """the same 1-D content as a view that is not a plain contiguous array: every other entry of a wider
+    buffer ("strided"), a reversed view ("rev"); `fill` pads the unused entries"""
+    if layout in (None, "c"):
+        return arr
+    if layout == "strided":
+        big = numpy.full(2 * len(arr) + 1, fill, dtype=arr.dtype)
+        big[1::2] = arr
+        return big[1::2]
+    if layout == "rev":
+        big = numpy.array(arr[::-1])
+        return big[::-1]
+    raise ValueError(layout)
+
+
+def _parr(case):
+    """the weight vector exactly as the implementation receives it (dtype and memory layout of the case)"""
+    dt = case.get("pdtype", "float64")
+    if dt == "float64":
+        arr = _farr(case["p"])
+    else:
+        vals = [Fraction(v) for v in case["p"]]
+        arr = numpy.array([int(v) if v.denominator == 1 and not dt.startswith("float") else float(v) for v in vals],
+                          dtype=numpy.dtype(dt))
+        assert all(Fraction(float(x)) == v for x, v in zip(arr, vals)), "weight not representable in " + dt
+    return _layout(arr, case.get("playout"), 0)
+
+
+def _aarr(case):
+    dt = case.get("adtype", "int64")
+    arr = numpy.array(case["a"], dtype=object if dt == "object" else numpy.dtype(dt))
+    return _layout(arr, case.get("alayout"), -99)
+
+
+def _size_call(case):
+    """the `size` argument in the form the case asks for: Python int / tuple (default), numpy integer,
+    tuple of numpy integers"""
+    size, form = case["size"], case.get("sizeform")
+    if form == "npint":
+        return tuple(numpy.int64(v) for v in size) if isinstance(size, list) else numpy.int64(size)
+    if form == "np32":
+        return tuple(numpy.int32(v) for v in size) if isinstance(size, list) else numpy.int32(size)
+    return _size_arg(size)
+
+
 # ---------------------------------------------------------------------------------- oracle replay
 def _sus_oracle(case):
     """draws consumed by stochastic_universal_sampling, replayed on a second generator, plus the
     binary64 intermediates the signature of a failing case refers to"""
-    p = _farr(case["p"])
+    p = _parr(case)
     k = _prod(_size_list(case["size"]))
     tot = p.sum()
     d = tot / numpy.int64(k)
@@ -159,6 +205,20 @@ def _tiled_oracle(case):
     return {"draw": [int(v) for v in draw], "perm": [int(v) for v in perm]}
 
 
+def _addon_oracle(case):
+    """pymoo_addon.tiled_choice(a, size) draws from the numpy global stream: `size // a` permutations of
+    range(a) through choice(a, a, replace=False), then choice(a, size % a, replace=False)"""
+    a, n = int(case["noption"]), int(case["nsample"])
+    st = numpy.random.get_state()
+    try:
+        numpy.random.seed(int(case["seed"]))
+        tiles = [[int(v) for v in numpy.random.choice(a, a, replace=False)] for _ in range(n // a)]
+        tiles.append([int(v) for v in numpy.random.choice(a, n % a, replace=False)])
+    finally:
+        numpy.random.set_state(st)
+    return tiles
+
+
 def _axes(case):
     ax = case["axis"]
     return [int(v) for v in ax] if isinstance(ax, list) else [int(ax)]
@@ -186,6 +246,48 @@ def _axis_oracle(case):
     return {"perms": perms}
 
 
+PAD = -7
+
+
+def _memory(arr):
+    """(the buffer that owns the memory of `arr`, as a flat view in memory order; the offset in it of every entry of
+    `arr` in C order).  The owner is a single contiguous segment in all layouts built here."""
+    root = arr
+    while root.base is not None:
+        root = root.base
+    isz = arr.itemsize
+    mem = numpy.lib.stride_tricks.as_strided(root, shape=(root.size,), strides=(isz,))
+    off = (arr.__array_interface__["data"][0] - root.__array_interface__["data"][0]) // isz
+    addr = [int(off + sum(i * st for i, st in zip(idx, arr.strides)) // isz) for idx in numpy.ndindex(*arr.shape)]
+    return mem, addr
+
+
+def _nd_layout(arr, layout):
+    """the same logical N-d content in another memory layout; returns (array, check that the call wrote nowhere
+    outside the array).  "C" contiguous, "F" Fortran order, "colslice" the leading columns of a table one column
+    wider, "strided" every other entry along every axis of a buffer twice as large, "neg" a view with negative
+    strides along the first axis"""
+    ok = lambda: True
+    if layout == "C":
+        return numpy.ascontiguousarray(arr), ok
+    if layout == "F":
+        return numpy.asfortranarray(arr), ok
+    if layout == "neg":
+        return numpy.ascontiguousarray(arr[::-1])[::-1], ok
+    if layout == "colslice":
+        wide = numpy.full(arr.shape[:-1] + (arr.shape[-1] + 1,), PAD, dtype=arr.dtype)
+        wide[..., :arr.shape[-1]] = arr
+        npad = wide.size - arr.size
+        return wide[..., :arr.shape[-1]], (lambda: int((wide == PAD).sum()) == npad)
+    if layout == "strided":
+        big = numpy.full(tuple(2 * v for v in arr.shape), PAD, dtype=arr.dtype)
+        view = big[(slice(1, None, 2),) * arr.ndim]
+        view[...] = arr
+        npad = big.size - arr.size
+        return view, (lambda: int((big == PAD).sum()) == npad)
+    raise ValueError(layout)
+
+
 def _dup(row):
     return len(row) - len(set(row))
 
@@ -210,33 +312,48 @@ def _outcross_oracle(case):
 class C17(Prop):
     PID = "C17"
     MODULE = "PybropsModel.Props.C17"
-    N_QUICK = 1500
-    N_THOROUGH = 50000
-    RULE = ("SUS: 1-9 weights (integers, dyadics, forced ties and zeros; binary64 weights spanning 1e-6..1e6), "
-            "1-64 draws in 1-D to 3-D shapes, scripted offsets that put pointers exactly on cumulative-weight "
-            "boundaries, genuine PCG64/MT19937/RandomState states incl. crafted MT19937 states with next variate "
-            "0.0 / 2^-53 / 1-2^-53 / 1-r*2^-53; tiled choice: 1-9 options, sizes below / equal / above multiples of "
-            "the option count, optional probabilities; axis shuffle: 1-D to 4-D arrays of distinct values, every "
-            "subset of axes incl. out-of-range entries; sliceaxisix itself incl. zero extents; outcross shuffle: "
-            "tables of 1-6 crosses x 1-4 parents over a small id range with forced selfs.  Non-trivial = SUS with "
+    N_QUICK = 1100
+    N_THOROUGH = 8000
+    RULE = ("SUS: 1-9 weights (integers, dyadics, forced ties, zeros, all-equal; the same vectors scaled by 2^-40..2^30; "
+            "a large common part 25000 / 2^24+1 / 2^30 / 10^9 (+ low bits) plus quarters or 1/4096ths; binary64 weights "
+            "spanning 1e-12..1e12, all ~1e-8 / ~1e-5 / ~1e9), weights stored as uint8..uint64 / int8..int64 / float32 / "
+            "float64, contiguous, strided or reversed views; 1-64 draws in 1-D to 4-D shapes, 127..1025 (thorough: 4097) "
+            "draws from 1-4 elements, 128-300 elements mostly of weight zero; numpy integers in `size`, `a` of other dtypes, "
+            "rng=None; scripted offsets that put pointers exactly on cumulative-weight boundaries, genuine "
+            "PCG64/MT19937/RandomState states incl. crafted MT19937 states with next variate 0.0 / 2^-53 / 1-2^-53 / "
+            "1-r*2^-53; tiled choice: 1-9 (rarely 129-200) options, sizes below / equal / above multiples of the option "
+            "count up to 1025 (thorough 4099), optional probabilities incl. zeros, argument forms as for SUS; the second "
+            "copy pymoo_addon.tiled_choice; axis shuffle: 1-D to 4-D arrays of distinct values in C / Fortran / strided / "
+            "negative-stride / column-slice layouts, every subset of axes in any order, either sign, numpy integers, "
+            "out-of-range entries; sliceaxisix itself incl. zero extents; outcross shuffle: tables of 1-6 crosses x 1-4 "
+            "parents (up to 24 entries) over a small id range (also ids beyond 8/16/31 bits) with forced selfs, the same "
+            "five memory layouts, the literal in-place loop replayed on the table's memory.  Non-trivial = SUS with "
             ">= 2 positive weights and >= 2 draws; tiled without replacement, >= 2 options, a remainder or >= 1 tile; "
             "axis case with >= 2 slices of length >= 2; outcross table with a repeated id in a row")
     TRUSTED = ["numpy generators: uniform(0,d) returns a value in [0,d), shuffle applies a rearrangement, "
                "choice(replace=False) returns distinct options (the model validates the replayed draws against this)",
                "the replay of the generator call pattern on a second generator built from the same specification "
                "(harness/props/c17.py:_*_oracle); a wrong replay shows as model/implementation disagreement",
-               "binary64 arithmetic is abstracted as exact rational arithmetic in the model: the floor/ceiling claim is "
-               "proved over exact scalars and carried to binary64 by correspondence + the Spec on every run only "
-               "(count, no-exception and zero-weight claims are proved independently of rounding: "
-               "sus_loop_safe_under_any_rounding); the pre-repair defects D7a/D7b/D7c are regression cases in corpus()",
-               "axis_shuffle: the model is the gather form (value at m comes from m with the first free coordinate "
-               "rearranged), not the sequence of in-place slice shuffles; tied to the code by correspondence only"]
+               "binary64: the floor/ceiling claim is proved over exact scalars (sus_floor_ceil) and, for the standard "
+               "model of floating-point arithmetic |fl x - x| <= u|x| applied to exactly the operations the code performs, "
+               "whenever no exact pointer is within 2*eps of an interior cumulative boundary (sus_floor_ceil_binary64_partial, eps = "
+               "max((1+u)^n - 1, (1+u)^3 (1+gamma) - 1) * sum(p)); the excluded ties do fail on binary64 (open finding D7g, "
+               "sus_binary64_tie_counterexample evaluated on Lean's Float, corpus cases replayed on numpy); count, "
+               "no-exception and zero-weight claims hold under ANY rounding (sus_loop_safe_under_any_rounding). Trusted: "
+               "binary64 operations satisfy the standard model (no underflow), p.sum() has relative error <= (1+u)^(n-1) - 1",
+               "numpy views: `xconfig.flat[q]` / `a[s]` address the element at the offset computed from the array's strides "
+               "(the harness computes the offsets it hands to the literal-loop model from __array_interface__/strides)"]
     ASSUMPTIONS = ["weights non-negative with positive sum; sizes include the empty request (0, (2,0), ...)",
-                   "cross tables in C order, Fortran order and as column slices of a wider table",
+                   "cross tables and shuffled arrays in C order, Fortran order, as strided / negative-stride views and as "
+                   "column slices of a wider array; memory outside the view must stay untouched (model: outcross_literal_any_layout)",
                    "axes of either sign (negative = counted from the last axis), duplicates and out-of-range entries",
                    "entries of `a` are distinct in generated cases, so that draws can be counted by value",
                    "a model/implementation difference in the binary64 stream is waived only when a pointer lies "
-                   "within 2^-40 (relative to the total weight) of a cumulative-weight boundary; the Spec is never waived"]
+                   "within 2^-40 (relative to the total weight) of a cumulative-weight boundary; the Spec is never waived; "
+                   "a Spec failure is attributed to finding D7g only when the call's binary64 arithmetic is inexact AND the "
+                   "hypotheses of sus_floor_ceil_binary64_partial fail (both recomputed from the case in exact arithmetic)",
+                   "documented but unsupported argument forms are not generated: tiled_choice(a=<int>) and size=None raise "
+                   "on the unchanged tree (AttributeError / TypeError); the property text does not cover them"]
 
     # ------------------------------------------------------------------ generation
     def corpus(self):
@@ -310,6 +427,98 @@ class C17(Prop):
             {"kind": "outcross", "nrow": 2, "ncol": 3, "x": [1, 1, 1, 1, 1, 2], "rng": {"gen": "randomstate", "seed": 2}},
             {"kind": "outcross", "nrow": 1, "ncol": 1, "x": [3], "rng": {"gen": "pcg64", "seed": 1}},
             {"kind": "outcross", "nrow": 2, "ncol": 2, "x": [1, 2, 3, 4], "rng": {"gen": "pcg64", "seed": 1}},
+        ] + self._corpus_round4(z, mx)
+
+    @staticmethod
+    def _corpus_round4(z, mx):
+        sc = lambda s, u: {"gen": "scripted", "seed": s, "u": u}
+        pc = lambda s: {"gen": "pcg64", "seed": s}
+        return [
+            # finding D7g (open): binary64 ties.  Equal weights that are not binary64 numbers, every expected count
+            # exactly 1 (or 2); offset exactly 0 / u = 1 - 2^-53 (genuine RandomState states): counts (0,1,2), (2,1,1,0,..)
+            {"kind": "sus", "p": canon.enc([0.7, 0.7, 0.7]), "a": [1, 2, 3], "size": 3, "rng": z, "regime": "float"},
+            {"kind": "sus", "p": canon.enc([0.1] * 10), "a": list(range(10)), "size": 10, "rng": mx, "regime": "float"},
+            {"kind": "sus", "p": canon.enc([0.1] * 10), "a": list(range(10)), "size": [4, 5], "rng": mx, "regime": "float"},
+            {"kind": "sus", "p": canon.enc([0.1, 0.2, 0.3]), "a": [1, 2, 3], "size": 6, "rng": mx, "regime": "float"},
+            # the same weights with interior offsets: within floor/ceil
+            {"kind": "sus", "p": canon.enc([0.7, 0.7, 0.7]), "a": [1, 2, 3], "size": 3, "rng": pc(3), "regime": "float"},
+            {"kind": "sus", "p": canon.enc([0.1] * 10), "a": list(range(10)), "size": 10, "rng": pc(4), "regime": "float"},
+            # weights stored as counts (unsigned / signed integers of every width), zeros among them (seeded change C17-c1)
+            {"kind": "sus", "p": [0, 0, 0, 5], "pdtype": "uint8", "a": [1, 2, 3, 4], "size": 1, "rng": pc(2), "regime": "float"},
+            {"kind": "sus", "p": [0, 3, 1, 0, 2], "pdtype": "uint8", "a": [1, 2, 3, 4, 5], "size": 6, "rng": sc(1, "1/2"),
+             "regime": "exact"},
+            {"kind": "sus", "p": [0, 3, 1, 0, 2], "pdtype": "uint64", "a": [1, 2, 3, 4, 5], "size": [2, 3], "rng": sc(2, "1/4"),
+             "regime": "exact"},
+            {"kind": "sus", "p": [2, 0, 1, 1], "pdtype": "uint16", "a": [1, 2, 3, 4], "size": 4, "rng": z, "regime": "exact"},
+            {"kind": "sus", "p": [100, 90, 0, 66], "pdtype": "int8", "a": [1, 2, 3, 4], "size": 4, "rng": sc(3, "3/4"),
+             "regime": "exact"},
+            {"kind": "sus", "p": [200, 100, 0, 212], "pdtype": "uint8", "a": [1, 2, 3, 4], "size": 8, "rng": sc(3, "1/8"),
+             "regime": "exact"},
+            {"kind": "sus", "p": ["3/2", "1/4", 0, "9/4"], "pdtype": "float32", "a": [1, 2, 3, 4], "size": 8,
+             "rng": sc(4, "1/2"), "regime": "exact"},
+            # the same vector at other magnitudes (2^-30 ~ 1e-9, 2^-17 ~ 1e-5, 2^30), all-equal weights, one draw
+            {"kind": "sus", "p": canon.enc([Fraction(v, 1 << 30) for v in (3, 2, 0, 1)]), "a": [1, 2, 3, 4], "size": 6,
+             "rng": sc(5, "1/2"), "regime": "exact"},
+            {"kind": "sus", "p": canon.enc([Fraction(v, 1 << 17) for v in (1, 1, 1, 1)]), "a": [1, 2, 3, 4], "size": 8,
+             "rng": sc(6, "1/4"), "regime": "exact"},
+            {"kind": "sus", "p": [3 << 30, 2 << 30, 0, 1 << 30], "a": [1, 2, 3, 4], "size": [3, 2], "rng": sc(7, "3/4"),
+             "regime": "exact"},
+            {"kind": "sus", "p": [2, 2, 2], "a": [1, 2, 3], "size": 1, "rng": pc(8), "regime": "float"},
+            {"kind": "sus", "p": canon.enc([1e-12, 1e12, 1.0, 0.0, 3e-9]), "a": [1, 2, 3, 4, 5], "size": 7, "rng": pc(9),
+             "regime": "float"},
+            # a large common part: 25000 + quarters, 10^9 + halves
+            {"kind": "sus", "p": ["100001/4", "50001/2", 25000, 0], "a": [1, 2, 3, 4], "size": 8, "rng": sc(10, "5/16"),
+             "regime": "exact"},
+            {"kind": "sus", "p": ["2000000001/2", "1999999999/2", 1000000000], "a": [1, 2, 3], "size": [2, 2],
+             "rng": sc(11, "1/2"), "regime": "exact"},
+            {"kind": "sus", "p": ["4294967297/4"] * 3, "a": [1, 2, 3], "size": 6, "rng": z, "regime": "exact"},
+            {"kind": "sus", "p": ["4294967681/4"] * 3, "a": [1, 2, 3], "size": 6, "rng": z, "regime": "exact"},
+            {"kind": "sus", "p": ["102400003/4096"] * 4, "a": [1, 2, 3, 4], "size": 8, "rng": z, "regime": "exact"},
+            {"kind": "sus", "p": [16777217, 16777217, 16777217], "a": [1, 2, 3], "size": 3, "rng": z, "regime": "exact"},
+            {"kind": "sus", "p": ["4000000003/4"] * 4, "a": [1, 2, 3, 4], "size": [4, 2], "rng": z, "regime": "exact"},
+            # many more draws than elements (past 127 / 1024), many elements (past 127)
+            {"kind": "sus", "p": [1025, 0, 2050], "a": [1, 2, 3], "size": 1025, "rng": sc(12, "1/2"), "regime": "exact"},
+            {"kind": "sus", "p": [129, 258], "pdtype": "uint16", "a": [1, 2], "size": 129, "rng": sc(13, "7/8"),
+             "regime": "exact"},
+            {"kind": "sus", "p": [1, 0, 2, 1], "pdtype": "uint8", "a": [1, 2, 3, 4], "size": [16, 32], "rng": sc(13, "3/8"),
+             "regime": "exact"},
+            {"kind": "sus", "p": [3, 5], "pdtype": "int8", "a": [1, 2], "size": 256, "rng": sc(14, "5/8"), "regime": "exact"},
+            {"kind": "sus", "p": [(1 if i % 37 == 5 else 0) for i in range(130)], "pdtype": "uint8", "a": list(range(130)),
+             "size": 8, "rng": sc(14, "1/2"), "regime": "exact"},
+            {"kind": "sus", "p": [1] * 130, "a": list(range(130)), "size": 260, "rng": pc(15), "regime": "float"},
+            # argument forms: strided / reversed views, numpy integers in size, a of another dtype, rng=None
+            {"kind": "sus", "p": [3, 0, 2, 1], "playout": "strided", "alayout": "rev", "a": [1, 2, 3, 4], "size": 6,
+             "rng": sc(16, "1/2"), "regime": "exact"},
+            {"kind": "sus", "p": [3, 0, 2, 1], "playout": "rev", "alayout": "strided", "adtype": "object", "a": [1, 2, 3, 4],
+             "size": [2, 3], "sizeform": "npint", "rng": sc(17, "1/4"), "regime": "exact"},
+            {"kind": "sus", "p": [3, 0, 2, 1], "a": [1, 2, 3, 4], "adtype": "float64", "size": 6, "sizeform": "np32",
+             "rng_none": True, "rng": sc(18, "3/4"), "regime": "exact"},
+            {"kind": "sus", "p": [1, 2, 3, 2], "a": [1, 2, 3, 4], "size": [2, 1, 2, 2], "rng": sc(19, "1/2"), "regime": "exact"},
+            # tiled choice: many tiles / many options, probabilities with zeros, argument forms
+            {"kind": "tiled", "a": [5, 6], "size": 1025, "replace": False, "p": None, "rng": pc(1)},
+            {"kind": "tiled", "a": list(range(100, 230)), "size": 131, "replace": False, "p": None, "rng": pc(2)},
+            {"kind": "tiled", "a": [5, 6, 7, 8], "size": [3, 2], "replace": False, "p": [0, "1/2", "1/2", 0], "rng": pc(3)},
+            {"kind": "tiled", "a": [5, 6, 7], "alayout": "strided", "adtype": "object", "size": [2, 2], "sizeform": "npint",
+             "replace": False, "p": None, "rng": {"gen": "randomstate", "seed": 4}},
+            {"kind": "tiled", "a": [5, 6, 7], "alayout": "rev", "adtype": "float64", "size": 8, "replace": False, "p": None,
+             "rng_none": True, "rng": pc(5)},
+            # the second copy of the tiling mechanism (opt/algo/pymoo_addon.py)
+            {"kind": "tiled_addon", "noption": 3, "nsample": 7, "seed": 1},
+            {"kind": "tiled_addon", "noption": 4, "nsample": 4, "seed": 2},
+            {"kind": "tiled_addon", "noption": 5, "nsample": 0, "seed": 3},
+            {"kind": "tiled_addon", "noption": 1, "nsample": 3, "seed": 4},
+            {"kind": "tiled_addon", "noption": 130, "nsample": 131, "seed": 5},
+            # axis shuffle / outcross shuffle on arrays that are not C-contiguous
+            {"kind": "axis", "shape": [3, 4], "axis": 0, "layout": "F", "rng": pc(1)},
+            {"kind": "axis", "shape": [3, 4], "axis": 1, "layout": "F", "rng": {"gen": "randomstate", "seed": 1}},
+            {"kind": "axis", "shape": [2, 3, 4], "axis": [2, 0], "layout": "strided", "rng": pc(2)},
+            {"kind": "axis", "shape": [2, 3, 4], "axis": [1], "layout": "neg", "dtype": "float64", "rng": pc(3)},
+            {"kind": "axis", "shape": [2, 3, 2, 2], "axis": [3, -3], "layout": "colslice", "axisform": "npint", "rng": pc(4)},
+            {"kind": "axis", "shape": [3, 2], "axis": 0, "rng_none": True, "rng": pc(5)},
+            {"kind": "outcross", "nrow": 3, "ncol": 2, "x": [1, 1, 2, 2, 3, 4], "layout": "strided", "rng": pc(1)},
+            {"kind": "outcross", "nrow": 3, "ncol": 2, "x": [1, 1, 2, 2, 3, 4], "layout": "neg", "dtype": "int32", "rng": pc(2)},
+            {"kind": "outcross", "nrow": 2, "ncol": 3, "x": [65536, 65536, 0, 0, 1, 65537], "rng": pc(3)},
+            {"kind": "outcross", "nrow": 6, "ncol": 4, "x": [i % 5 for i in range(24)], "rng_none": True, "rng": pc(4)},
         ]
 
     @staticmethod
@@ -329,7 +538,115 @@ class C17(Prop):
         a, b, c = rng.choice(facs)
         return [a, b * c] if r < 0.8 else [a, b, c]
 
-    def _gen_sus(self, rng):
+    INT_DTYPES = ["uint8", "uint16", "uint32", "uint64", "int8", "int16", "int32", "int64"]
+
+    @staticmethod
+    def _call_forms(rng, c, arrays=True):
+        """rarely used forms of the same call: numpy integers in `size`, `a` of another dtype or as a strided /
+        reversed view, `rng=None` (module-level generator)"""
+        if rng.random() < 0.08:
+            c["sizeform"] = rng.choice(["npint", "np32"])
+        if arrays and rng.random() < 0.08:
+            c["alayout"] = rng.choice(["strided", "rev"])
+        if arrays and rng.random() < 0.08:
+            c["adtype"] = rng.choice(["float64", "int32", "object"])
+        if rng.random() < 0.03:
+            c["rng_none"] = True
+        return c
+
+    def _scripted(self, rng):
+        u = Fraction(rng.randint(1, 15), 16) if rng.random() < 0.8 else Fraction(rng.randint(1, 1023), 1024)
+        return {"gen": "scripted", "seed": rng.randrange(1 << 30), "u": canon.enc(u)}
+
+    def _exact_spec(self, rng):
+        r = rng.random()
+        if r < 0.70:
+            return self._scripted(rng)
+        if r < 0.82:
+            return {"gen": rng.choice(["randomstate", "mt19937"]), "seed": rng.randrange(1 << 30), "craft": [0, 0]}
+        return self._rng_spec(rng)
+
+    @staticmethod
+    def _regime(spec):
+        return "exact" if spec["gen"] == "scripted" or "craft" in spec else "float"
+
+    def _gen_sus_large(self, rng, tier):
+        """sizes past internal constants: many more draws than elements (127 .. 4097), many elements (128 .. 300,
+        mostly of weight zero); integer weights, so every binary64 operation of the call is exact or a single
+        correctly rounded division"""
+        r = rng.random()
+        if r < 0.25:
+            # a power-of-two request with small weights of any dtype (8-bit counts included): the spacing is dyadic
+            n = rng.choice([1, 2, 3, 4])
+            p = [rng.choice([0, 1, 1, 2, 3, 5]) for _ in range(n)]
+            if not any(p):
+                p[rng.randrange(n)] = 1
+            k = rng.choice([128, 256, 512, 1024] + ([2048, 4096] if tier == "thorough" else []))
+            spec = self._exact_spec(rng)
+            c = {"kind": "sus", "p": p, "a": rng.sample(range(-50, 200), n), "size": self._size(rng, k),
+                 "rng": spec, "regime": self._regime(spec)}
+            if rng.random() < 0.7:
+                c["pdtype"] = rng.choice(self.INT_DTYPES + ["float32"])
+            return c
+        if r < 0.6:
+            n = rng.choice([1, 2, 3, 4])
+            q = [rng.choice([0, 1, 1, 2, 3]) for _ in range(n)]
+            if not any(q):
+                q[rng.randrange(n)] = 1
+            kp = rng.choice([127, 128, 129, 255, 257, 1000, 1024, 1025] + ([2049, 4097] if tier == "thorough" else []))
+            p = [kp * v for v in q]
+            spec = self._exact_spec(rng)
+            c = {"kind": "sus", "p": p, "a": rng.sample(range(-50, 200), n), "size": self._size(rng, kp) if kp < 300 else kp,
+                 "rng": spec, "regime": self._regime(spec)}
+            if rng.random() < 0.4:
+                c["pdtype"] = rng.choice(["uint32", "uint64", "int32", "int64"])
+            return c
+        n = rng.choice([128, 130, 200, 300])
+        if rng.random() < 0.6:
+            p = [0] * n
+            for i in rng.sample(range(n), rng.randint(2, 8)):
+                p[i] = rng.choice([1, 1, 2, 3, 5])
+        else:
+            p = [rng.choice([1, 1, 1, 2, 3]) for _ in range(n)]
+            if rng.random() < 0.5:
+                p = [p[0]] * n
+        k = rng.choice([1, 7, 64, n, n + 1, 2 * n])
+        c = {"kind": "sus", "p": p, "a": rng.sample(range(-50, 1000), n), "size": k, "rng": self._rng_spec(rng),
+             "regime": "float"}
+        if rng.random() < 0.5:
+            c["pdtype"] = rng.choice(self.INT_DTYPES)
+        return c
+
+    def _gen_sus_offset(self, rng):
+        """weights that share a large common part (25000, 2^30, 10^9) and differ by quarters; power-of-two request,
+        scripted dyadic offset: every binary64 operation of the call is exact"""
+        n = rng.choice([2, 3, 4, 6])
+        base = rng.choice([25000, 1 << 30, 10 ** 9, (1 << 24) + 1]) + rng.choice([0, 0, 1, 37, 96, 101])
+        den = rng.choice([4, 4, 4096])
+        p = [base + Fraction(rng.choice([0, 0, 1, 2, 3, 5, 8, 12]), den) for _ in range(n)]
+        if rng.random() < 0.3:
+            p[rng.randrange(n)] = Fraction(0)
+        if not any(p):
+            p[0] = Fraction(base)
+        k = 1 << rng.choice([0, 1, 2, 3, 4, 5])
+        spec = self._exact_spec(rng)
+        if rng.random() < 0.35:
+            # all weights equal: every expected count is the integer 2^e and, with the offset exactly 0, every
+            # (r+1)*2^e-th pointer sits exactly on a cumulative boundary that needs more than 24 significant bits
+            w = base + Fraction(rng.choice([1, 2, 3, 5]), den)
+            p = [w] * n
+            k = n * (1 << rng.choice([0, 1, 2, 3]))
+            if rng.random() < 0.6:
+                spec = {"gen": rng.choice(["randomstate", "mt19937"]), "seed": rng.randrange(1 << 30), "craft": [0, 0]}
+        return {"kind": "sus", "p": canon.enc(p), "a": rng.sample(range(-50, 200), n), "size": self._size(rng, k),
+                "rng": spec, "regime": self._regime(spec)}
+
+    def _gen_sus(self, rng, tier="quick"):
+        r0 = rng.random()
+        if r0 < 0.035:
+            return self._call_forms(rng, self._gen_sus_large(rng, tier))
+        if r0 < 0.09:
+            return self._call_forms(rng, self._gen_sus_offset(rng))
         n = rng.choice([1, 2, 2, 3, 3, 4, 5, 6, 9])
         a = rng.sample(range(-50, 200), n)
         style = rng.random()
@@ -343,25 +660,37 @@ class C17(Prop):
             if rng.random() < 0.4 and n > 1:          # ties
                 for _ in range(rng.randint(1, n)):
                     q[rng.randrange(n)] = q[rng.randrange(n)]
+            if rng.random() < 0.08:                   # all weights equal
+                q = [Fraction(rng.choice([1, 2, 3]), den)] * n
             if not any(q):
                 q[rng.randrange(n)] = Fraction(1, den)
             k = kp * (1 << e)
             p = [kp * v for v in q]
+            spec = self._exact_spec(rng)
+            c = {"kind": "sus", "p": canon.enc(p), "a": a, "size": self._size(rng, k), "rng": spec,
+                 "regime": self._regime(spec)}
             r = rng.random()
-            if r < 0.70:
-                u = Fraction(rng.randint(1, 15), 16) if rng.random() < 0.8 else Fraction(rng.randint(1, 1023), 1024)
-                spec = {"gen": "scripted", "seed": rng.randrange(1 << 30), "u": canon.enc(u)}
-            elif r < 0.82:
-                spec = {"gen": rng.choice(["randomstate", "mt19937"]), "seed": rng.randrange(1 << 30), "craft": [0, 0]}
-            else:
-                spec = self._rng_spec(rng)
-            return {"kind": "sus", "p": canon.enc(p), "a": a, "size": self._size(rng, k), "rng": spec,
-                    "regime": "exact" if spec["gen"] == "scripted" or "craft" in spec else "float"}
+            if r < 0.30 and all(v.denominator == 1 for v in p):
+                c["pdtype"] = rng.choice(self.INT_DTYPES)          # counts as weights
+            elif r < 0.38:
+                c["pdtype"] = "float32"                            # small dyadics are float32 numbers
+            elif r < 0.60:
+                # the same vector at another magnitude (exact scaling by a power of two): ~1e-12, 1e-9, 1e-5, 1e-2, 1e3, 1e9
+                sc = Fraction(2) ** rng.choice([-40, -30, -17, -7, 10, 30])
+                c["p"] = canon.enc([v * sc for v in p])
+            if rng.random() < 0.08:
+                c["playout"] = rng.choice(["strided", "rev"])
+            return self._call_forms(rng, c)
         k = rng.choice([1, 2, 3, 5, 7, 10, 12, 29, 36, 49, 64])
-        if style < 0.75:
+        if style < 0.72:
             p = [rng.random() * rng.choice([1, 1, 10]) for _ in range(n)]
-        else:   # widely different magnitudes, zeros
+        elif style < 0.80:   # everything tiny (~1e-8, ~1e-5) or everything huge
+            sc = rng.choice([1e-8, 1e-5, 1e9])
+            p = [rng.random() * sc for _ in range(n)]
+        elif style < 0.90:   # widely different magnitudes, zeros
             p = [rng.choice([1e-6, 2.5e-6, 1.0, 3.0, 1e6, 3e6, 0.0]) * rng.randint(1, 3) for _ in range(n)]
+        else:                # 1e-12 .. 1e12
+            p = [rng.choice([1e-12, 1e-9, 1e-5, 1.0, 1e5, 1e9, 1e12, 0.0]) * rng.randint(1, 3) for _ in range(n)]
         if rng.random() < 0.2 and n > 1:
             p[rng.randrange(n)] = 0.0
         if sum(p) <= 0.0:
@@ -372,9 +701,18 @@ class C17(Prop):
                     "craft": rng.choice([[0, 0], [0, 64], [M32, M32], [M32, M32 - 64 * rng.randint(1, 9)]])}
         else:
             spec = self._rng_spec(rng)
-        return {"kind": "sus", "p": canon.enc(p), "a": a, "size": self._size(rng, k), "rng": spec, "regime": "float"}
+        c = {"kind": "sus", "p": canon.enc(p), "a": a, "size": self._size(rng, k), "rng": spec, "regime": "float"}
+        if rng.random() < 0.08:
+            c["playout"] = rng.choice(["strided", "rev"])
+        return self._call_forms(rng, c)
 
-    def _gen_tiled(self, rng):
+    def _gen_tiled(self, rng, tier="quick"):
+        if rng.random() < 0.03:
+            # sizes past internal constants (chunks of 1024 / 4096, 8-bit counters)
+            n, ns = rng.choice([(3, 385), (2, 1025), (5, 1024), (130, 131), (130, 389), (200, 100), (129, 263)]
+                               + ([(7, 4099), (3, 4097)] if tier == "thorough" else []))
+            return self._call_forms(rng, {"kind": "tiled", "a": rng.sample(range(-20, 1000), n), "size": ns,
+                                          "replace": False, "p": None, "rng": self._rng_spec(rng)})
         n = rng.choice([1, 2, 3, 3, 4, 5, 7, 9])
         a = rng.sample(range(-20, 100), n)
         base = rng.choice([0, 1, 2, 3]) * n
@@ -382,13 +720,22 @@ class C17(Prop):
         ns = min(ns, 64)
         replace = rng.random() < 0.12
         p = None
-        if rng.random() < 0.3:
-            w = [rng.choice([1, 1, 2, 4]) for _ in range(n)]
+        if rng.random() < 0.35:
+            w = [rng.choice([0, 1, 1, 2, 4]) for _ in range(n)]
             tot = sum(w)
-            if tot & (tot - 1) == 0:               # dyadic probabilities that sum to exactly 1
+            # dyadic probabilities that sum to exactly 1; without replacement numpy needs at least `re` non-zero ones
+            if tot > 0 and tot & (tot - 1) == 0 and (replace or sum(1 for v in w if v) >= ns % n):
                 p = [canon.enc(Fraction(v, tot)) for v in w]
         size = self._size(rng, ns) if ns > 0 else rng.choice([0, [0], [2, 0]])
-        return {"kind": "tiled", "a": a, "size": size, "replace": replace, "p": p, "rng": self._rng_spec(rng)}
+        return self._call_forms(rng, {"kind": "tiled", "a": a, "size": size, "replace": replace, "p": p,
+                                      "rng": self._rng_spec(rng)})
+
+    @staticmethod
+    def _gen_addon(rng):
+        """opt/algo/pymoo_addon.py:tiled_choice(a, size), the second copy of the tiling mechanism"""
+        n = rng.choice([1, 2, 3, 3, 4, 5, 7, 9]) if rng.random() < 0.95 else rng.choice([128, 130])
+        ns = max(0, rng.choice([0, 1, 2, 3]) * n + rng.choice([-1, 0, 0, 1, 2, n // 2, n - 1]))
+        return {"kind": "tiled_addon", "noption": n, "nsample": ns, "seed": rng.randrange(1 << 30)}
 
     def _gen_axis(self, rng):
         nd = rng.choice([1, 2, 2, 3, 3, 4])
@@ -407,7 +754,16 @@ class C17(Prop):
                 axis = [hi, rng.randrange(0, hi)]
             if rng.random() < 0.1:
                 axis = axis + [nd + rng.randint(0, 2)]      # out-of-range entries are ignored by sliceaxisix
-        return {"kind": "axis", "shape": shape, "axis": axis, "rng": self._rng_spec(rng)}
+        c = {"kind": "axis", "shape": shape, "axis": axis, "rng": self._rng_spec(rng)}
+        if rng.random() < 0.2:
+            c["layout"] = rng.choice(["F", "strided", "neg", "colslice"])
+        if rng.random() < 0.06:
+            c["dtype"] = rng.choice(["float64", "int32", "int16"])
+        if rng.random() < 0.06:
+            c["axisform"] = "npint"
+        if rng.random() < 0.03:
+            c["rng_none"] = True
+        return c
 
     @staticmethod
     def _negate_axes(rng, case):
@@ -422,7 +778,7 @@ class C17(Prop):
     def _gen_outcross(self, rng):
         nrow = rng.choice([1, 2, 2, 3, 3, 4, 5, 6])
         ncol = rng.choice([1, 2, 2, 2, 3, 4])
-        while nrow * ncol > 16:
+        while nrow * ncol > (24 if rng.random() < 0.1 else 16):
             nrow -= 1
         ids = rng.choice([2, 3, 4, 6, 9])
         if nrow != ncol and rng.random() < 0.5:
@@ -435,8 +791,16 @@ class C17(Prop):
         if rng.random() < 0.2:                      # balanced tiles, as produced by tiled_choice
             x = [(i % ids) for i in range(nrow * ncol)]
             rng.shuffle(x)
-        layout = rng.choice(["C"] * 8 + ["F", "colslice"])
-        return {"kind": "outcross", "nrow": nrow, "ncol": ncol, "x": x, "layout": layout, "rng": self._rng_spec(rng)}
+        if rng.random() < 0.05:                     # ids far apart / beyond 8 and 16 bits
+            off = rng.choice([127, 255, 32767, 65535, 1 << 31])
+            x = [v + off for v in x]
+        layout = rng.choice(["C"] * 7 + ["F", "colslice", "strided", "neg"])
+        c = {"kind": "outcross", "nrow": nrow, "ncol": ncol, "x": x, "layout": layout, "rng": self._rng_spec(rng)}
+        if rng.random() < 0.06:
+            c["dtype"] = rng.choice(["float64", "int32", "int16"]) if max(x) < 32767 else "float64"
+        if rng.random() < 0.03:
+            c["rng_none"] = True
+        return c
 
     def exhaustive(self, tier):
         """thorough tier: every weight vector with <= 3 entries in {0..3} (positive sum) x 1..6 draws x
@@ -467,17 +831,67 @@ class C17(Prop):
                             "rng": {"gen": "pcg64", "seed": 7 * no + ns}})
         return out
 
+    def _gen_seq(self, rng, tier):
+        """two or three consecutive calls of the same function with arguments of the same shape but different content
+        (what a memo keyed by shape / size / id would confuse)"""
+        kind = rng.choice(["sus", "sus", "tiled", "outcross", "axis"])
+        steps = []
+        if kind == "sus":
+            first = self._gen_sus(rng, "quick")
+            while len(first["p"]) > 9 or _prod(_size_list(first["size"])) > 64:
+                first = self._gen_sus(rng, "quick")
+            steps.append(first)
+            for _ in range(rng.choice([1, 2])):
+                c = json.loads(json.dumps(first))
+                vals = [Fraction(v) for v in first["p"]]
+                rng.shuffle(vals)                       # the same multiset of weights on other elements
+                if rng.random() < 0.5 and len(vals) > 1 and ("pdtype" not in first or max(vals) * 2 <= 127):
+                    i, j = rng.sample(range(len(vals)), 2)
+                    vals[i], vals[j] = vals[i] + vals[j], Fraction(0)     # same total, another split
+                c["p"] = canon.enc(vals)
+                c["rng"] = dict(first["rng"], seed=rng.randrange(1 << 30))
+                steps.append(c)
+        elif kind == "tiled":
+            first = self._gen_tiled(rng, "quick")
+            steps.append(first)
+            c = json.loads(json.dumps(first))
+            c["a"] = [v + 1000 for v in first["a"]]
+            c["rng"] = self._rng_spec(rng)
+            steps.append(c)
+        elif kind == "outcross":
+            first = self._gen_outcross(rng)
+            steps.append(first)
+            c = json.loads(json.dumps(first))
+            x = list(first["x"])
+            rng.shuffle(x)
+            c["x"] = x
+            c["rng"] = self._rng_spec(rng)
+            steps.append(c)
+        else:
+            first = self._gen_axis(rng)
+            steps.append(first)
+            c = json.loads(json.dumps(first))
+            nd = len(first["shape"])
+            c["axis"] = rng.randrange(nd)
+            c["rng"] = self._rng_spec(rng)
+            steps.append(c)
+        return {"kind": "seq", "steps": steps}
+
     def generate(self, rng, n, tier):
         out = []
         for _ in range(n):
             r = rng.random()
-            if r < 0.45:
-                c = self._gen_sus(rng)
+            if r < 0.04:
+                out.append(self._gen_seq(rng, tier))
+            elif r < 0.43:
+                c = self._gen_sus(rng, tier)
                 if rng.random() < 0.02:
                     c["size"] = rng.choice([0, [0], [2, 0], [0, 3]])     # an empty request
                 out.append(c)
+            elif r < 0.62:
+                out.append(self._gen_tiled(rng, tier))
             elif r < 0.65:
-                out.append(self._gen_tiled(rng))
+                out.append(self._gen_addon(rng))
             elif r < 0.80:
                 c = self._gen_axis(rng)
                 if rng.random() < 0.12:
@@ -496,45 +910,68 @@ class C17(Prop):
     def run_impl(self, case):
         S, A = _mods()
         k = case["kind"]
+        if k == "seq":
+            # a history: the calls are made one after the other in this process (module-level state, if a changed
+            # tree keeps any, is carried from one call to the next); every call is judged on its own
+            return {"steps": [self.run_impl(c) for c in case["steps"]]}
         if k == "slices":
             tup = list(A.sliceaxisix(tuple(case["shape"]), tuple(_axes(case))))
             return {"tuples": [[None if isinstance(v, slice) else int(v) for v in t] for t in tup],
                     "all_full_slices": all(v == slice(None) for t in tup for v in t if isinstance(v, slice))}
-        rng = make_rng(case["rng"])
+        rng = make_rng(case["rng"]) if "rng" in case else None
         if k == "sus":
-            p = _farr(case["p"])
-            a = numpy.array(case["a"], dtype=numpy.int64)
+            p = _parr(case)
+            a = _aarr(case)
             p0, a0 = p.copy(), a.copy()
-            out = S.stochastic_universal_sampling(a, p, _size_arg(case["size"]), rng)
+            with self._global_rng(S, case, rng) as r:
+                out = S.stochastic_universal_sampling(a, p, _size_call(case), r)
             out = numpy.asarray(out)
+            untouched = bool((p0 == p).all() and (a0 == a).all() and self._pads_ok(p, 0) and self._pads_ok(a, -99))
             if _prod(_size_list(case["size"])) == 0:      # empty request answered (only after D7d is repaired)
                 return {"out": [int(v) for v in out.ravel()], "shape": [int(v) for v in out.shape], "offset": 0,
                         "sigma": [int(v) for v in p.argsort()[::-1]], "perm": [],
-                        "inputs_untouched": bool((p0 == p).all() and (a0 == a).all())}
+                        "inputs_untouched": untouched}
             orc = _sus_oracle(case)
             return {"out": [int(v) for v in out.ravel()], "shape": [int(v) for v in out.shape],
                     "offset": canon.enc(orc["offset"]), "sigma": orc["sigma"], "perm": orc["perm"],
-                    "inputs_untouched": bool((p0 == p).all() and (a0 == a).all())}
+                    "inputs_untouched": untouched}
         if k == "tiled":
-            a = numpy.array(case["a"], dtype=numpy.int64)
+            a = _aarr(case)
             a0 = a.copy()
             p = None if case.get("p") is None else _farr(case["p"])
+            p0 = None if p is None else p.copy()
             if len(a) == 0:
                 try:
-                    S.tiled_choice(a, _size_arg(case["size"]), case["replace"], p, rng)
+                    S.tiled_choice(a, _size_call(case), case["replace"], p, rng)
                     return {"raised": None}
                 except Exception as e:
                     return {"raised": canon.exc_tag(e)}
-            out = numpy.asarray(S.tiled_choice(a, _size_arg(case["size"]), case["replace"], p, rng))
+            with self._global_rng(S, case, rng) as r:
+                out = numpy.asarray(S.tiled_choice(a, _size_call(case), case["replace"], p, r))
             orc = _tiled_oracle(case)
+            untouched = bool((a0 == a).all() and self._pads_ok(a, -99) and (p is None or (p0 == p).all()))
             return {"out": [int(v) for v in out.ravel()], "shape": [int(v) for v in out.shape],
-                    "draw": orc["draw"], "perm": orc["perm"], "inputs_untouched": bool((a0 == a).all())}
+                    "draw": orc["draw"], "perm": orc["perm"], "inputs_untouched": untouched}
+        if k == "tiled_addon":
+            import pybrops.opt.algo.pymoo_addon as addon
+            st = numpy.random.get_state()
+            try:
+                numpy.random.seed(int(case["seed"]))
+                out = numpy.asarray(addon.tiled_choice(int(case["noption"]), int(case["nsample"])))
+            finally:
+                numpy.random.set_state(st)
+            return {"out": [int(v) for v in out.ravel()], "shape": [int(v) for v in out.shape],
+                    "tiles": _addon_oracle(case)}
         if k == "axis":
             shape = case["shape"]
             data = self._axis_data(case)
-            arr = numpy.array(data, dtype=numpy.int64).reshape(shape)
+            arr, pads_ok = _nd_layout(numpy.array(data, dtype=numpy.dtype(case.get("dtype", "int64"))).reshape(shape),
+                                      case.get("layout", "C"))
             ax = case["axis"]
-            ax = tuple(ax) if isinstance(ax, list) else int(ax)
+            if case.get("axisform") == "npint":
+                ax = tuple(numpy.int64(v) for v in ax) if isinstance(ax, list) else numpy.int64(ax)
+            else:
+                ax = tuple(ax) if isinstance(ax, list) else int(ax)
             axes = set(a for a in _norm_axes(case) if 0 <= a < len(shape))
             if len(axes) == len(shape) and _prod(shape) > 0:
                 # every axis iterated: a[s] is a 0-d item, rng.shuffle must reject it
@@ -543,23 +980,47 @@ class C17(Prop):
                     return {"raised": None, "after": [int(v) for v in arr.ravel()]}
                 except TypeError as e:
                     return {"raised": canon.exc_tag(e), "after": [int(v) for v in arr.ravel()]}
-            S.axis_shuffle(arr, ax, rng)
+            with self._global_rng(S, case, rng) as r:
+                S.axis_shuffle(arr, ax, r)
             return {"after": [int(v) for v in arr.ravel()], "shape": [int(v) for v in arr.shape],
-                    "perms": _axis_oracle(case)["perms"]}
+                    "perms": _axis_oracle(case)["perms"], "pads_untouched": pads_ok()}
         if k == "outcross":
-            arr = numpy.array(case["x"], dtype=numpy.int64).reshape(case["nrow"], case["ncol"])
-            layout = case.get("layout", "C")
-            if layout == "F":
-                arr = numpy.asfortranarray(arr)
-            elif layout == "colslice":          # a view on the leading columns of a wider table
-                wide = numpy.full((case["nrow"], case["ncol"] + 1), -7, dtype=numpy.int64)
-                wide[:, :case["ncol"]] = arr
-                arr = wide[:, :case["ncol"]]
+            arr, pads_ok = _nd_layout(numpy.array(case["x"], dtype=numpy.dtype(case.get("dtype", "int64")))
+                                      .reshape(case["nrow"], case["ncol"]), case.get("layout", "C"))
             cc = bool(arr.flags["C_CONTIGUOUS"])
-            S.outcross_shuffle(arr, rng)
+            mem, addr = _memory(arr)
+            buf0 = [int(v) for v in mem]
+            with self._global_rng(S, case, rng) as r:
+                S.outcross_shuffle(arr, r)
             return {"after": [int(v) for v in arr.ravel()], "shape": [int(v) for v in arr.shape],
-                    "c_contiguous": cc, "orders": _outcross_oracle(case)["orders"]}
+                    "c_contiguous": cc, "orders": _outcross_oracle(case)["orders"], "pads_untouched": pads_ok(),
+                    "buf_before": buf0, "addr": addr, "buf_after": [int(v) for v in mem]}
         raise ValueError(k)
+
+    @staticmethod
+    @contextlib.contextmanager
+    def _global_rng(S, case, rng):
+        """`rng=None` form of a call: the functions then fall back on the module-level generator
+        `pybrops.core.random.prng.global_prng` (bound in the sampling module at import time); for such a case that
+        name is bound to the case's generator for the duration of the call and `None` is passed"""
+        if not case.get("rng_none"):
+            yield rng
+            return
+        old = S.global_prng
+        S.global_prng = rng
+        try:
+            yield None
+        finally:
+            S.global_prng = old
+
+    @staticmethod
+    def _pads_ok(view, fill):
+        """for a strided view: the entries of the underlying buffer that do not belong to the view still hold
+        the padding value (the call wrote nowhere but into the view)"""
+        base = view.base
+        if base is None or base.shape == view.shape:
+            return True
+        return bool(all(v == fill for v in base[0::2]))
 
     @staticmethod
     def _axis_data(case):
@@ -569,6 +1030,11 @@ class C17(Prop):
     # ------------------------------------------------------------------ model requests
     def requests(self, case, obs):
         k = case["kind"]
+        if k == "seq":
+            out = []
+            for c, o in zip(case["steps"], obs["steps"]):
+                out.extend(self.requests(c, o))
+            return out
         if k == "sus":
             size = _size_list(case["size"])
             return [{"op": "c17.sus", "p": case["p"], "a": case["a"], "size": size, "sigma": obs["sigma"],
@@ -582,6 +1048,11 @@ class C17(Prop):
             return [{"op": "c17.tiled", "a": case["a"], "size": size, "replace": case["replace"],
                      "draw": obs["draw"], "perm": obs["perm"]},
                     {"op": "c17.spec_tiled", "a": case["a"], "out": obs["out"], "nsample": _prod(size)}]
+        if k == "tiled_addon":
+            return [{"op": "c17.tiled_addon", "noption": case["noption"], "nsample": case["nsample"],
+                     "tiles": obs["tiles"]},
+                    {"op": "c17.spec_tiled", "a": list(range(case["noption"])), "out": obs["out"],
+                     "nsample": case["nsample"]}]
         if k == "axis":
             data = self._axis_data(case)
             axes = _axes(case)
@@ -591,12 +1062,16 @@ class C17(Prop):
                     {"op": "c17.spec_axis", "shape": case["shape"], "axis": axes, "before": data,
                      "after": obs["after"]}]
         if k == "slices":
-            return [{"op": "c17.sliceaxisix", "shape": case["shape"], "axis": _axes(case)}]
+            return [{"op": "c17.sliceaxisix", "shape": case["shape"], "axis": _axes(case)},
+                    {"op": "c17.spec_slices", "shape": case["shape"], "axis": _axes(case), "tuples": obs["tuples"]}]
         if k == "outcross":
             return [{"op": "c17.outcross", "nrow": case["nrow"], "ncol": case["ncol"], "x": case["x"],
                      "orders": obs["orders"]},
                     {"op": "c17.spec_outcross", "nrow": case["nrow"], "ncol": case["ncol"], "before": case["x"],
-                     "after": obs["after"]}]
+                     "after": obs["after"]},
+                    # the literal in-place loop on the memory of the table (any layout)
+                    {"op": "c17.outcross_buf", "nrow": case["nrow"], "ncol": case["ncol"], "buf": obs["buf_before"],
+                     "addr": obs["addr"], "orders": obs["orders"]}]
         raise ValueError(k)
 
     # ------------------------------------------------------------------ judge
@@ -632,10 +1107,11 @@ class C17(Prop):
 
     @staticmethod
     def _rounded_margin(case, obs):
-        """does `sus_floor_ceil_rounded` apply to this call?  eps := (n + k + 2) rounding units of the total
-        (a bound for the accumulated error of the sequential cumsum, of ptr_dist*j and of the final addition);
-        the theorem needs every exact pointer more than 2*eps away from every exact cumulative boundary before
-        the last element of positive weight, and the exact offset below the exact spacing"""
+        """does Props/C17 `sus_floor_ceil_binary64_partial` apply to this call?  With u = 2^-53 (binary64, standard model) and
+        gamma = (1+u)^(n-1) - 1 (a bound for the relative error of p.sum() in any summation order) the theorem's
+        eps = max((1+u)^n - 1, (1+u)^3 (1+gamma) - 1) * sum(p); it needs every exact pointer more than 2*eps away
+        from every exact cumulative boundary before the last element of positive weight, and the exact offset in
+        [0, exact spacing).  Everything is recomputed from the case in exact arithmetic."""
         p = [Fraction(v) for v in case["p"]]
         k = _prod(_size_list(case["size"]))
         if k == 0:
@@ -644,21 +1120,58 @@ class C17(Prop):
         d = tot / k
         o = Fraction(obs["offset"])
         n = len(p)
-        eps = (n + k + 2) * Fraction(float(numpy.spacing(float(tot))))
+        u = Fraction(1, 1 << 53)
+        gamma = (1 + u) ** (n - 1) - 1
+        eps = max((1 + u) ** n - 1, (1 + u) ** 3 * (1 + gamma) - 1) * tot
         last = sum(1 for v in p if v != 0) - 1
         cs, acc = [], Fraction(0)
         for i in obs["sigma"][:max(last, 0)]:
             acc += p[i]
             cs.append(acc)
         if not (0 <= o < d):
-            return "[rounded theorem: n/a, offset not below the exact spacing]"
+            return "[fl theorem: n/a, offset not below the exact spacing]"
         gap = min((abs(o + j * d - c) for j in range(k) for c in cs), default=None)
         if gap is None or gap > 2 * eps:
-            return "[rounded theorem applies]"
-        return "[rounded theorem: n/a, a pointer is within 2*eps of an interior boundary (tie)]"
+            return "[fl theorem applies]"
+        return "[fl theorem: n/a, a pointer is within 2*eps of an interior boundary (tie)]"
+
+    @staticmethod
+    def _binary64_inexact(case, obs):
+        """does any binary64 value the loop compares (cumulative weights before the last positive one, pointers)
+        differ from its exact value?  Recomputed the way the code computes them, from the case alone."""
+        p = _parr(case)
+        k = _prod(_size_list(case["size"]))
+        P = [Fraction(v) for v in case["p"]]
+        T = sum(P)
+        D = T / k
+        off = float(Fraction(obs["offset"]))
+        tot = p.sum()
+        d = tot / numpy.int64(k)
+        sigma = obs["sigma"]
+        cs = p[numpy.array(sigma)].cumsum()
+        ptrs = off + d * numpy.arange(k)
+        acc, CS = Fraction(0), []
+        for i in sigma:
+            acc += P[i]
+            CS.append(acc)
+        last = sum(1 for v in P if v != 0) - 1
+        if any(Fraction(float(cs[r])) != CS[r] for r in range(max(last, 0))):
+            return True
+        return any(Fraction(float(ptrs[j])) != Fraction(off) + j * D for j in range(k))
 
     def judge(self, case, obs, answers):
         k = case["kind"]
+        if k == "seq":
+            pos, vs = 0, []
+            for c, o in zip(case["steps"], obs["steps"]):
+                n = len(self.requests(c, o))
+                vs.append(self.judge(c, o, answers[pos:pos + n]))
+                pos += n
+            bad = [i for i, v in enumerate(vs) if not (v["corr"] and v["spec"])]
+            return {"corr": all(v["corr"] for v in vs), "spec": all(v["spec"] for v in vs),
+                    "nontrivial": any(v["nontrivial"] for v in vs), "step_verdicts": vs,
+                    "detail": f"history of {len(vs)} calls, failing steps {bad}: " + " || ".join(
+                        vs[i]["detail"][:400] for i in (bad or [0]))}
         for a in answers:
             if "err" in a:
                 raise RuntimeError("driver error: " + a["err"])
@@ -677,7 +1190,7 @@ class C17(Prop):
             note += " " + self._rounded_margin(case, obs)
             p = [Fraction(v) for v in case["p"]]
             nontriv = sum(1 for v in p if v > 0) >= 2 and _prod(size) >= 2
-            return {"corr": corr, "spec": spec, "nontrivial": nontriv,
+            return {"corr": corr, "spec": spec, "nontrivial": nontriv, "parts": s, "shape_ok": shape_ok,
                     "detail": f"sus shape_ok={shape_ok} spec={ {x: s[x] for x in s if x != 'ok'} } "
                               f"model={m.get('out', m.get('error'))} impl={obs['out']} offset={obs['offset']}{note}"}
         if k == "tiled":
@@ -700,6 +1213,15 @@ class C17(Prop):
             nontriv = (not case["replace"]) and no >= 2 and ns >= 1 and (ns % no != 0 or ns >= no)
             return {"corr": corr, "spec": spec, "nontrivial": nontriv,
                     "detail": f"tiled shape_ok={shape_ok} {s['detail']} model={m.get('out', m.get('error'))} impl={obs['out']}"}
+        if k == "tiled_addon":
+            m, s = ans
+            if "error" in m and str(m["error"]).startswith("oracle:"):
+                return self._oracle_fault(m, case)
+            corr = m.get("out") == obs["out"]
+            spec = bool(s["ok"]) and obs["shape"] == [case["nsample"]]
+            return {"corr": corr, "spec": spec,
+                    "nontrivial": case["noption"] >= 2 and case["nsample"] >= 1,
+                    "detail": f"pymoo_addon.tiled_choice {s['detail']} model={m.get('out', m.get('error'))} impl={obs['out']}"}
         if k == "axis":
             if "raised" in obs:
                 m = ans[0]
@@ -709,17 +1231,18 @@ class C17(Prop):
             m, s = ans
             if "error" in m and str(m["error"]).startswith("oracle:"):
                 return self._oracle_fault(m, case)
-            corr = m.get("out") == obs["after"]
+            corr = m.get("out") == obs["after"] and obs.get("pads_untouched", True)
             spec = bool(s["ok"]) and obs["shape"] == case["shape"]
             nontriv = len(obs["perms"]) >= 2 and len(obs["perms"][0]) >= 2
             return {"corr": corr, "spec": spec, "nontrivial": nontriv,
                     "detail": f"axis {s['detail']} model={m.get('out', m.get('error'))} impl={obs['after']}"}
         if k == "slices":
-            m = ans[0]
+            m, sp = ans
             shape, axes = case["shape"], set(_axes(case))
             corr = m["tuples"] == obs["tuples"]
-            # Spec, recomputed here: one tuple per combination of in-range coordinates at the iterated axes,
-            # lexicographic order, slice(None) exactly at the other axes
+            # Spec = Lean oracle `specSlices` on the implementation's tuples (Props/C17 slices_spec_iff), cross-checked
+            # against an independent enumeration: one tuple per combination of in-range coordinates at the iterated
+            # axes, lexicographic order, slice(None) exactly at the other axes
             import itertools
             it = [d for d in range(len(shape)) if d in axes]
             want = []
@@ -728,14 +1251,17 @@ class C17(Prop):
                 for d, v in zip(it, combo):
                     t[d] = v
                 want.append(t)
-            spec = obs["tuples"] == want and obs["all_full_slices"] and m["keys"] == [[v for v in t if v is not None] for t in want]
+            spec = bool(sp["ok"]) and obs["all_full_slices"]
+            if spec != (obs["tuples"] == want and obs["all_full_slices"]):
+                raise RuntimeError("c17.spec_slices disagrees with the independent enumeration")
             return {"corr": corr, "spec": spec, "nontrivial": len(want) >= 2 and len(it) < len(shape),
                     "detail": f"sliceaxisix model={m['tuples'][:6]} impl={obs['tuples'][:6]}"}
         if k == "outcross":
-            m, s = ans
+            m, s, mb = ans
             if "error" in m and str(m["error"]).startswith("oracle: every"):
                 return self._oracle_fault(m, case)
-            corr = m.get("out") == obs["after"]
+            corr = (m.get("out") == obs["after"] and obs.get("pads_untouched", True)
+                    and mb.get("out") == obs["buf_after"])
             spec = bool(s["ok"]) and obs["shape"] == [case["nrow"], case["ncol"]]
             nontriv = _score(case["x"], case["nrow"], case["ncol"]) > 0
             return {"corr": corr, "spec": spec, "nontrivial": nontriv,
@@ -744,14 +1270,35 @@ class C17(Prop):
 
     # ------------------------------------------------------------------ signature of a failing case
     def signature(self, case, obs, verdict):
-        """no finding is open for C17; the signature only describes a failure for the replay file"""
+        """attributes the matcher of finding D7g refers to (all recomputed from the case), and a description of
+        any other failure for the replay file"""
         kind = case["kind"]
         sig = {"kind": kind}
+        if kind == "seq":
+            # a failing history is described by its first failing call (so that a known finding met inside a history
+            # is recognised); an exception aborts the whole history and is described as such
+            vs = verdict.get("step_verdicts") if isinstance(verdict, dict) else None
+            if vs and isinstance(obs, dict) and "steps" in obs:
+                for c, o, v in zip(case["steps"], obs["steps"], vs):
+                    if not v["spec"]:
+                        return self.signature(c, o, v)
+            return sig
         if isinstance(obs, dict) and "__exception__" in obs:
             sig["fail"] = "exception"
             sig["exception_class"] = obs.get("text", "").split(":")[0]
         if kind == "sus":
             sig["size_zero"] = _prod(_size_list(case["size"])) == 0
+            parts = verdict.get("parts") if isinstance(verdict, dict) else None
+            if parts and not sig["size_zero"] and "fail" not in sig:
+                only_counts = bool(parts.get("length_ok") and parts.get("members_ok") and verdict.get("shape_ok")
+                                   and not parts.get("zero_weight_selected"))
+                sig["fail"] = "count_outside_floor_ceil" if only_counts else "length_shape_member_or_zero_weight"
+                if only_counts:
+                    # D7g: the binary64 computation of the call is inexact AND some exact pointer lies within the
+                    # accumulated rounding error of an exact cumulative boundary (or the offset of 0 / the spacing):
+                    # the complement of the hypotheses of Props/C17 `sus_floor_ceil_rounded_partial`
+                    sig["binary64_inexact"] = self._binary64_inexact(case, obs)
+                    sig["within_rounding_of_tie"] = "n/a" in self._rounded_margin(case, obs)
         elif kind == "outcross":
             sig["layout"] = case.get("layout", "C")
         elif kind == "axis":
@@ -761,21 +1308,37 @@ class C17(Prop):
     # ------------------------------------------------------------------ shrinking
     def shrink(self, case):
         k = case["kind"]
+        if k == "seq":
+            for i in range(len(case["steps"])):
+                if len(case["steps"]) > 1:
+                    yield {"kind": "seq", "steps": case["steps"][:i] + case["steps"][i + 1:]}
+            return
         if k == "sus":
+            def keeps_regime(c):
+                # an "exact" case stays one in which every binary64 operation of the call is exact (dyadic spacing);
+                # otherwise a shrunk case could be an instance of the binary64 finding D7g instead of the failure found
+                if c.get("regime") != "exact":
+                    return True
+                kk_ = _prod(_size_list(c["size"]))
+                if kk_ == 0:
+                    return True
+                den = (sum(Fraction(v) for v in c["p"]) / kk_).denominator
+                return den & (den - 1) == 0
             n = len(case["p"])
             for i in range(n):
                 if n > 1:
                     c = dict(case)
                     c["p"] = case["p"][:i] + case["p"][i + 1:]
                     c["a"] = case["a"][:i] + case["a"][i + 1:]
-                    if any(Fraction(v) > 0 for v in c["p"]):
+                    if any(Fraction(v) > 0 for v in c["p"]) and keeps_regime(c):
                         yield c
             kk = _prod(_size_list(case["size"]))
             for k2 in (kk // 2, kk - 1):
                 if 1 <= k2 < kk:
                     c = dict(case)
                     c["size"] = k2
-                    yield c
+                    if keeps_regime(c):
+                        yield c
             if isinstance(case["size"], list):
                 c = dict(case)
                 c["size"] = kk
@@ -787,8 +1350,10 @@ class C17(Prop):
                 c["a"] = case["a"][:-1]
                 yield c
             ns = _prod(_size_list(case["size"]))
+            # numpy's choice(replace=False, p) needs at least `re` options of non-zero probability: keep the case valid
+            nz = n if case.get("p") is None else sum(1 for v in case["p"] if Fraction(v) > 0)
             for n2 in (ns // 2, ns - 1):
-                if 0 <= n2 < ns:
+                if 0 <= n2 < ns and (case["replace"] or n2 % n <= nz):
                     c = dict(case)
                     c["size"] = n2
                     yield c
@@ -828,9 +1393,12 @@ class C17(Prop):
                 setattr(mod, name, old)
 
         def sus_variant(fixed_offset=False, rule=None, ascending=False, noshuffle=False, ptr_skip=False,
-                        linspace=False, empty_ok=True):
+                        linspace=False, empty_ok=True, neg_stable=False, zero_isclose=False, tolerant=False,
+                        wrap1024=False, cumsum_dtype=False, int8_counts=False):
             """the function as it is (after fix fc545079) with one thing changed"""
             def f(a, p, size=None, rng=None):
+                if rng is None:
+                    rng = S.global_prng
                 if isinstance(size, (int, numpy.integer)):
                     size = (size,)
                 k = numpy.prod(size)
@@ -839,32 +1407,84 @@ class C17(Prop):
                 tot = p.sum()
                 d = tot / k
                 ind = p.argsort() if ascending else p.argsort()[::-1]
+                if neg_stable:          # seeded change C17-c1: negation wraps around for unsigned weights
+                    ind = numpy.argsort(-p, kind="stable")
                 cs = p[ind].cumsum()
+                if cumsum_dtype:        # cumulative weights kept in the dtype of the weights (8-bit counts overflow)
+                    cs = p[ind].cumsum(dtype=p.dtype)
                 off = rng.uniform(0.0, d)
                 if fixed_offset:
                     off = d / 2
                 sel = []
                 ix = 0
                 ptrs = off + d * numpy.arange(k)
+                if wrap1024:            # pointers generated in chunks of 1024, each chunk restarting at the offset
+                    ptrs = off + d * (numpy.arange(k) % 1024)
+                    ptrs.sort()
                 if linspace:        # pointers compressed towards the end: spacing (tot-off)/k instead of tot/k
                     ptrs = numpy.linspace(off, tot, int(k), endpoint=False)
                 last = (len(p) - 1) if ascending else (numpy.count_nonzero(p) - 1)
+                if zero_isclose:        # 'zero weight' decided with a tolerance
+                    last = numpy.count_nonzero(~numpy.isclose(p, 0.0)) - 1
                 lo = (off < 0.5 * d) if rule is None else (rule == "le")
                 for j, ptr in enumerate(ptrs):
                     if ptr_skip and j == len(ptrs) - 1 and k > 1:
                         ptr = off                            # last pointer re-uses the first position
                         ix = 0
-                    while ix < last and (cs[ix] <= ptr if lo else cs[ix] < ptr):
+                    while ix < last and ((cs[ix] <= ptr if lo else cs[ix] < ptr)
+                                         or (tolerant and numpy.isclose(cs[ix], ptr))):
                         ix += 1
                     sel.append(ind[ix])
+                if int8_counts and k > 127:     # draws tallied per element in 8-bit counters, then expanded again
+                    cnt = numpy.bincount(numpy.array(sel), minlength=len(p)).astype(numpy.int8)
+                    sel = list(numpy.repeat(numpy.arange(len(p)), numpy.abs(cnt.astype(int))))
+                    sel = (sel + [sel[-1]] * int(k))[:int(k)]
                 sel = numpy.array(sel)
                 if not noshuffle:
                     rng.shuffle(sel)
                 return a[sel.reshape(size)]
             return f
 
+        memo = {}
+
+        def sus_memo(a, p, size=None, rng=None):
+            """the sort order and the cumulative weights are memoised per (number of elements, number of draws): a
+            second call with other weights of the same shape walks along the cumulative weights of the first"""
+            if rng is None:
+                rng = S.global_prng
+            if isinstance(size, (int, numpy.integer)):
+                size = (size,)
+            k = numpy.prod(size)
+            if k == 0:
+                return a[numpy.zeros(size, dtype=int)]
+            key = (len(p), int(k), str(p.dtype))
+            if key not in memo:
+                ind = p.argsort()[::-1]
+                memo[key] = (ind, p[ind].cumsum(), p.sum(), numpy.count_nonzero(p) - 1)
+            ind, cs, tot, last = memo[key]
+            d = tot / k
+            off = rng.uniform(0.0, d)
+            ptrs = off + d * numpy.arange(k)
+            lo = off < 0.5 * d
+            sel, ix = [], 0
+            for ptr in ptrs:
+                while ix < last and (cs[ix] <= ptr if lo else cs[ix] < ptr):
+                    ix += 1
+                sel.append(ind[ix])
+            sel = numpy.array(sel)
+            rng.shuffle(sel)
+            return a[sel.reshape(size)]
+
+        @contextlib.contextmanager
+        def fresh_memo():
+            memo.clear()
+            with patch(S, "stochastic_universal_sampling", sus_memo):
+                yield
+
         def sus_prerepair(a, p, size=None, rng=None):
             """the function before fix fc545079, verbatim: a revert of the fix must be flagged"""
+            if rng is None:
+                rng = S.global_prng
             if isinstance(size, (int, numpy.integer)):
                 size = (size,)
             k = numpy.prod(size)
@@ -885,8 +1505,10 @@ class C17(Prop):
             sel = sel.reshape(size)
             return a[sel]
 
-        def tiled_variant(rem_replace=False, one_tile_less=False):
+        def tiled_variant(rem_replace=False, one_tile_less=False, cap256=False):
             def f(a, size=None, replace=True, p=None, rng=None):
+                if rng is None:
+                    rng = S.global_prng
                 if isinstance(size, (int, numpy.integer)):
                     size = (size,)
                 ns = int(numpy.prod(size))
@@ -895,6 +1517,11 @@ class C17(Prop):
                 out = numpy.empty(ns, dtype=a.dtype)
                 no = len(a)
                 qu, re_ = divmod(ns, no)
+                if cap256 and qu > 256:          # at most 256 whole tiles; the rest comes from one weighted draw
+                    out[:256 * no] = numpy.tile(a, 256)
+                    out[256 * no:] = rng.choice(a, ns - 256 * no, True, p)
+                    rng.shuffle(out)
+                    return out.reshape(size)
                 if one_tile_less and qu >= 1:
                     qu, re_ = qu - 1, re_ + no
                 for i in range(qu):
@@ -905,13 +1532,55 @@ class C17(Prop):
             return f
 
         def axis_wrong(a, axis=None, rng=None):
+            if rng is None:
+                rng = S.global_prng
             if isinstance(axis, (int, numpy.integer)):
                 axis = (axis,)
             axis = tuple((x + 1) % a.ndim for x in axis)       # slices along the neighbouring axis
             for s in A.sliceaxisix(a.shape, axis):
                 rng.shuffle(a[s])
 
+        def axis_fortran_transposed(a, axis=None, rng=None):
+            """'iterate in memory order': a Fortran-ordered array is handled through its transpose, the axis
+            numbers are not mirrored"""
+            if rng is None:
+                rng = S.global_prng
+            if isinstance(axis, (int, numpy.integer)):
+                axis = (axis,)
+            axis = tuple(x + a.ndim if x < 0 else x for x in axis)
+            if a.ndim > 1 and a.flags["F_CONTIGUOUS"] and not a.flags["C_CONTIGUOUS"]:
+                a = a.T
+            for s_ in A.sliceaxisix(a.shape, axis):
+                rng.shuffle(a[s_])
+
+        def axis_noncontig_writeback(a, axis=None, rng=None):
+            """an array that is not C-contiguous is shuffled on a contiguous copy and written back 'in its own
+            layout' (order="F"): the values land on other positions"""
+            if rng is None:
+                rng = S.global_prng
+            if isinstance(axis, (int, numpy.integer)):
+                axis = (axis,)
+            axis = tuple(x + a.ndim if x < 0 else x for x in axis)
+            if a.flags["C_CONTIGUOUS"]:
+                for s_ in A.sliceaxisix(a.shape, axis):
+                    rng.shuffle(a[s_])
+                return
+            c = numpy.ascontiguousarray(a)
+            for s_ in A.sliceaxisix(c.shape, axis):
+                rng.shuffle(c[s_])
+            a[...] = c.ravel().reshape(a.shape, order="F")
+
+        def addon_tile_with_replacement(a, size):
+            out = numpy.empty(size, int)
+            ndiv, nrem = size // a, size % a
+            for i in range(ndiv):
+                out[a * i:a * (i + 1)] = numpy.random.choice(a, a, replace=True)
+            out[a * ndiv:] = numpy.random.choice(a, nrem, replace=False)
+            return out
+
         def axis_flat(a, axis=None, rng=None):
+            if rng is None:
+                rng = S.global_prng
             if isinstance(axis, (int, numpy.integer)):
                 axis = (axis,)
             for _ in A.sliceaxisix(a.shape, axis):
@@ -920,14 +1589,20 @@ class C17(Prop):
             rng.shuffle(flat)                                    # permutes across slices
 
         def axis_no_normalisation(a, axis=None, rng=None):
+            if rng is None:
+                rng = S.global_prng
             if isinstance(axis, (int, numpy.integer)):
                 axis = (axis,)
             for s_ in A.sliceaxisix(a.shape, axis):
                 rng.shuffle(a[s_])
 
-        def outcross_variant(first_pass_only=False, no_swap_back=False, ravel=False):
+        def outcross_variant(first_pass_only=False, no_swap_back=False, ravel=False, int16=False):
             def f(xconfig, rng=None):
+                if rng is None:
+                    rng = S.global_prng
                 def objfn(x):
+                    if int16:       # individuals compared after a cast to 16 bits
+                        return sum(len(r) - len(numpy.unique(r.astype(numpy.int16))) for r in x)
                     return sum(len(r) - len(numpy.unique(r)) for r in x)
                 xr = xconfig.ravel() if ravel else xconfig.flat
                 best = objfn(xconfig)
@@ -951,6 +1626,8 @@ class C17(Prop):
         def outcross_pruned(xconfig, rng=None):
             """candidate exchanges pruned to 'different crosses', the cross of a flat position computed with
             shape[0] instead of shape[1]: on non-square tables genuine between-cross exchanges are never tried"""
+            if rng is None:
+                rng = S.global_prng
             def objfn(x):
                 return sum(len(r) - len(numpy.unique(r)) for r in x)
             xr = xconfig.ravel()
@@ -972,6 +1649,8 @@ class C17(Prop):
                 it = not loc
 
         def outcross_overwrite(xconfig, rng=None):
+            if rng is None:
+                rng = S.global_prng
             xr = xconfig.ravel()
             for r in range(xconfig.shape[0]):
                 row = xconfig[r]
@@ -1016,7 +1695,22 @@ class C17(Prop):
                     yield
 
         sus = "stochastic_universal_sampling"
-        return [
+        import pybrops.opt.algo.pymoo_addon as addon
+        round4 = [
+            ("sus_memo_keyed_by_shape", fresh_memo),
+            ("sus_argsort_negated_stable", lambda: patch(S, sus, sus_variant(neg_stable=True))),
+            ("sus_zero_weight_by_isclose", lambda: patch(S, sus, sus_variant(zero_isclose=True))),
+            ("sus_tolerant_boundary_compare", lambda: patch(S, sus, sus_variant(tolerant=True))),
+            ("sus_pointer_chunks_of_1024", lambda: patch(S, sus, sus_variant(wrap1024=True))),
+            ("sus_cumsum_in_weight_dtype", lambda: patch(S, sus, sus_variant(cumsum_dtype=True))),
+            ("sus_counts_in_int8", lambda: patch(S, sus, sus_variant(int8_counts=True))),
+            ("tiled_at_most_256_tiles", lambda: patch(S, "tiled_choice", tiled_variant(cap256=True))),
+            ("tiled_addon_tile_with_replacement", lambda: patch(addon, "tiled_choice", addon_tile_with_replacement)),
+            ("axis_fortran_handled_through_transpose", lambda: patch(S, "axis_shuffle", axis_fortran_transposed)),
+            ("axis_noncontiguous_written_back_in_F_order", lambda: patch(S, "axis_shuffle", axis_noncontig_writeback)),
+            ("outcross_ids_compared_as_int16", lambda: patch(S, "outcross_shuffle", outcross_variant(int16=True))),
+        ]
+        return round4 + [
             ("sliceaxisix_reversed_order", lambda: patch2("sliceaxisix", slices_variant(reverse=True))),
             ("sliceaxisix_skips_last_index", lambda: patch2("sliceaxisix", slices_variant(skip_last=True))),
             ("sliceaxisix_assumes_ascending_axes", lambda: patch2("sliceaxisix", slices_head_only)),
